@@ -434,6 +434,11 @@ fn check(tier: &str) -> i32 {
         let path = write_replay(&json!({"property": "C14", "classification": format!("known:{id}"), "scenario": scn, "picks": r.picks, "failure": r.failure, "detail": r.detail, "outcome": r.outcome}));
         println!("KNOWN-FINDING: property=C14 {id} {} [re-observed in {n} schedules; first witness: scenario {scn}, picks {:?}; replay={path}]", texts.get(id).cloned().unwrap_or_default(), r.picks);
     }
+    for (id, text) in &texts {
+        if !known.contains_key(id) {
+            println!("KNOWN-FINDING: property=C14 {id} {text} [listed; not re-observed within the bounds of this run]");
+        }
+    }
     let mut exit = 0;
     if std::env::var("VERIF_TRIAGE").is_ok() {
         let mut agg: BTreeMap<String, (usize, Vec<u8>)> = BTreeMap::new();
